@@ -247,6 +247,10 @@ struct ObjValueInner {
 thread_local! {
 	static RUNNING_ASSERTIONS: RefCell<FxHashSet<ObjValue>> = RefCell::default();
 }
+#[cfg(jrsonnet_verif)]
+pub(crate) fn verif_asserting_len() -> usize {
+	RUNNING_ASSERTIONS.with_borrow(rustc_hash::FxHashSet::len)
+}
 fn is_asserting(obj: &ObjValue) -> bool {
 	RUNNING_ASSERTIONS.with_borrow(|v| v.contains(obj))
 }
@@ -589,6 +593,19 @@ impl ObjValue {
 		let cache_key = (key.clone(), core);
 		{
 			let mut cache = self.0.value_cache.borrow_mut();
+			#[cfg(jrsonnet_verif)]
+			crate::verif::emit_key(
+				"obj",
+				match cache.get(&cache_key) {
+					Some(CacheValue::Cached(_)) => "hit",
+					Some(CacheValue::Pending) if is_asserting(self) => "restart_asserting",
+					Some(CacheValue::Pending) => "reenter",
+					None => "start",
+				},
+				std::ptr::from_ref(&*self.0) as usize,
+				core.idx,
+				&cache_key.0,
+			);
 			// entry_ref candidate?
 			match cache.entry(cache_key.clone()) {
 				Entry::Occupied(v) => match v.get() {
@@ -605,6 +622,14 @@ impl ObjValue {
 			};
 		}
 		let result = self.get_idx_uncached(key, core);
+		#[cfg(jrsonnet_verif)]
+		crate::verif::emit_key(
+			"obj",
+			if result.is_ok() { "finish" } else { "fail" },
+			std::ptr::from_ref(&*self.0) as usize,
+			core.idx,
+			&cache_key.0,
+		);
 		{
 			let mut cache = self.0.value_cache.borrow_mut();
 			cache.insert(cache_key, CacheValue::Cached(result.clone()));
